@@ -267,6 +267,81 @@ WHERE batches.user = %s AND batches.id = %s AND batch_updates.update_id = %s AND
 
         return self.run(dm.delete_prev_cancelled_job_group_cancellable_resources_records(self.db))
 
+    # ---- the driver's real loop bodies with recording collaborators (what they SELECT, not what the calls do) ---------
+    def driver_selection(self):
+        """Runs Canceller.cancel_cancelled_{ready,creating,running}_jobs_loop_body, cancel_orphaned_attempts_loop_body and
+        PoolScheduler.schedule_loop_body (real SQL, real Python) with mark_job_complete / unschedule_job / schedule_job replaced
+        by recorders.  Returns dict loop -> set of selected (job_id[, attempt_id])."""
+        import batch.driver.canceller as cm
+        import batch.driver.instance_collection.pool as pm
+        from hailtop.utils import Notice
+
+        rec = {"cancel_ready": set(), "cancel_creating": set(), "cancel_running": set(), "orphan": set(), "schedule": set()}
+        cur = {"loop": None}
+
+        async def fake_mjc(app, batch_id, job_id, attempt_id, job_group_id, instance_name, new_state, *a, **k):
+            rec[cur["loop"]].add((job_id, attempt_id) if attempt_id is not None else (job_id,))
+
+        async def fake_unsched(app, record):
+            rec[cur["loop"]].add((record["job_id"], record["attempt_id"]))
+
+        async def fake_schedule(app, record, instance):
+            rec["schedule"].add((record["job_id"],))
+
+        class Pool0:
+            async def call(self, f, *a, **k):
+                await f(*a, **k)
+
+        class ICM:
+            regions = ["us-central1"]
+
+            def get_instance(self, name):
+                return None
+
+        class FakeInst:
+            region = "us-central1"
+            state = "active"
+            name = "sel-i"
+
+            def adjust_free_cores_in_memory(self, d):
+                pass
+
+        class FakePool:
+            name = "standard"
+            all_supported_regions = ["us-central1"]
+            inst_coll_manager = ICM()
+            healthy_instances_by_free_cores = [type("W", (), {"free_cores_mcpu": 10 ** 9})()]
+
+            def get_instance(self, cores, regions):
+                return FakeInst()
+
+            def __str__(self):
+                return "pool standard"
+
+        saved = (cm.mark_job_complete, cm.unschedule_job, pm.schedule_job, pm.random.random)
+        cm.mark_job_complete, cm.unschedule_job, pm.schedule_job = fake_mjc, fake_unsched, fake_schedule
+        pm.random.random = lambda: 0.0
+        try:
+            c = object.__new__(cm.Canceller)
+            c.app, c.db, c.async_worker_pool, c.inst_coll_manager = self.app, self.db, Pool0(), ICM()
+            for loop, body in (("cancel_ready", c.cancel_cancelled_ready_jobs_loop_body), ("cancel_creating", c.cancel_cancelled_creating_jobs_loop_body),
+                               ("cancel_running", c.cancel_cancelled_running_jobs_loop_body), ("orphan", c.cancel_orphaned_attempts_loop_body)):
+                cur["loop"] = loop
+                r = self.run(body())
+                if r.kind != "ok":
+                    rec[loop] = r
+            sch = object.__new__(pm.PoolScheduler)
+            sch.app, sch.db, sch.pool, sch.async_worker_pool = self.app, self.db, FakePool(), Pool0()
+            sch.exceeded_shares_counter = pm.ExceededSharesCounter()
+            sch.scheduler_state_changed = self._in_loop(Notice)
+            cur["loop"] = "schedule"
+            r = self.run(sch.schedule_loop_body())
+            if r.kind != "ok":
+                rec["schedule"] = r
+        finally:
+            cm.mark_job_complete, cm.unschedule_job, pm.schedule_job, pm.random.random = saved
+        return rec
+
     # ---- the real aiohttp handlers (decorators included) through mocked requests ------------------------------------------
     def webapp(self):
         """aiohttp Application holding the front end's real route table; fe.auth._fetch_userdata is replaced by a header-driven
@@ -411,4 +486,19 @@ WHERE batches.user = %s AND batches.id = %s AND batch_updates.update_id = %s AND
         return rows
 
     def close(self):
+        # finish or cancel whatever handler tasks are still pending so that nothing is finalised outside a loop
+        from asyncio import tasks as _tasks
+
+        try:
+            pending = [t for t in _tasks.all_tasks(self.loop) if not t.done()]
+            for t in pending:
+                t.cancel()
+            for _ in range(10000):
+                if not self.loop.step():
+                    break
+            for t in pending:
+                if t.done() and not t.cancelled():
+                    t.exception()
+        except Exception:
+            pass
         self.loop.dispose()
